@@ -1138,9 +1138,13 @@ impl DocumentMut for XmlDocument {
     }
 
     fn create_entity_reference(&self, name: &str) -> error::Result<XmlEntityReference> {
+        // The whole of `name` has to be the name of an entity reference: `&amp;x;` and `&#38;`
+        // begin like a reference too.
         let ref_name = format!("&{};", name);
-        xml_parser::reference(ref_name.as_str())
-            .map_err(|_| error::DomException::InvalidCharacterErr)?;
+        match xml_parser::reference(ref_name.as_str()) {
+            Ok(("", xml_parser::model::Reference::Entity(parsed))) if parsed == name => {}
+            _ => return Err(error::DomException::InvalidCharacterErr)?,
+        }
 
         let entity = self.document.borrow().context().entity(name)?;
         let entity = xml_info::XmlUnexpandedEntityReference::node(
